@@ -1,43 +1,30 @@
-"""Per-property configuration of the driver: which harness package and test
-functions decide the property, how many generated cases per tier, the level
-claimed and the non-triviality rule that the evidence file states."""
+"""Per-property configuration of the driver. Each claimed property has a file
+config/<ID>.py defining CHECK = {...}: which harness package and test functions
+decide the property, how many generated cases per tier, the level claimed and the
+non-triviality rule that the evidence file states."""
+import glob
+import importlib
+import os
 
 PACKAGES = {
     "p_wire": {},
+    "p_store": {},
+    "p_table": {"synctest": True},
+    "p_valid": {},
+    "p_beacon": {},
+    "p_proto": {},
 }
-
-EXPLORATION = "exploration"
-FAULT_ENUM = "fault_enumeration"
 
 HOOK_COMMITS = ["5279cbd"]
 
-# properties deliberately not claimed (none so far: everything not listed in CHECKS is still being built)
+# properties deliberately not claimed, with the reason (none: all 20 are meant to be claimed)
 NOT_APPLICABLE = {}
 
-CHECKS = {
-    "C15": {
-        "package": "p_wire",
-        "level": EXPLORATION,
-        "level_text": "Generated-input search with a reference model: the code's joiner/splitter is compared with an independent LEB128 "
-                      "splitter on thousands of lists and hostile byte strings per run (plus coverage-guided fuzzing in the thorough tier). "
-                      "This is the right level for a pure function over byte strings; absence of counterexamples is not a proof.",
-        "level_note": "Trusted: the reference splitter/joiner (harness/model/framing.go), rapid's generators, the Go toolchain. "
-                      "Hook: exported wrappers of the four framing helpers and decode/encodeUtpContent.",
-        "technique": "property-based testing (rapid) against a reference LEB128 splitter: round-trip + differential; native go fuzz in thorough",
-        "runs": [
-            {"name": "c15", "run": "^TestC15_", "checks": {"quick": 3000, "thorough": 40000}, "shards": {"quick": 1, "thorough": 16}},
-        ],
-        "fuzz": [{"name": "FuzzC15Split", "time": "60s"}],
-        "rule": "rapid draws (a) lists of 0..64 byte strings with lengths biased to 0,1,127,128,16383,16384,2^21-1,2^21 and random, "
-                "joined by the code and by a reference LEB128 joiner, decoded back and compared item by item; (b) decoder inputs: valid streams, "
-                "truncations at every position, prefixes exceeding the rest, 5-byte varints with high bits, 6+-byte varints, non-minimal varints, "
-                "trailing bytes, splices and raw bytes, each judged by a reference splitter (malformed => must be rejected, well-formed => same split); "
-                "(c) single-item streams for peers negotiating version 0 or 1. A case is non-trivial when the list has an empty item and an item "
-                ">= 128 bytes, when the input is malformed by the reference, or when it decodes to >= 1 item; distinct = distinct plan digests.",
-        "assumptions": [
-            "reference LEB128 splitter in harness/model/framing.go is correct (it is itself exercised against the code's encoder)",
-            "non-minimal varints (e.g. 80 00) are neither required nor forbidden by the statement; the check accepts both verdicts for them",
-        ],
-        "required_classes": {"quick": ["malformed:model: truncated", "malformed:model: varint overflows 32 bits", "v1-exact", "empty+>=128"]},
-    },
-}
+CHECKS = {}
+_here = os.path.dirname(os.path.abspath(__file__))
+for _f in sorted(glob.glob(os.path.join(_here, "config", "C*.py"))):
+    _id = os.path.basename(_f)[:-3]
+    CHECKS[_id] = importlib.import_module("config." + _id).CHECK
+
+# only packages that exist on disk are built
+PACKAGES = {k: v for k, v in PACKAGES.items() if os.path.isdir(os.path.join(_here, "harness", k))}
